@@ -46,6 +46,10 @@ def run(ctx: Ctx):
 
     res.rule("HOMOGENEITY", "dimensional analysis of MTTKRP (core, einsum and memory-efficient variants): the result is homogeneous of degree 1 in the tensor, 1 in the weights when given, and 1 in every factor except the skipped mode", floor=6)
     ctx.guarded(run_homogeneity, ctx, "HOMOGENEITY", ("tensorly.tenalg.",))
+    from .family import run_family
+
+    res.rule("AXIS-FAMILY", "tensordot (core, einsum) and _validate_contraction_modes: an axis number of one tensor is only combined (indexing, membership, negative-axis normalisation, transpose) with the shape / ndim / axis lists of the same tensor", floor=20)
+    ctx.guarded(run_family, ctx, "AXIS-FAMILY")
 
 
 def registry(ctx: Ctx):
